@@ -504,6 +504,21 @@ Section Spec.
 
   Theorem load_empty (e : engine T) : load e [] = Err ESyntax.
   Proof. reflexivity. Qed.
+
+  (* loading an already loaded consequent replaces its conclusions: the outcome does not depend on what was there,
+     loading twice equals loading once, and unload-then-load equals load *)
+  Theorem reload_replaces (e : engine T) tokens previous previous' :
+    consequent_reload e tokens previous = consequent_reload e tokens previous'.
+  Proof. reflexivity. Qed.
+  Theorem reload_twice (e : engine T) tokens previous :
+    consequent_reload e tokens (fst (consequent_reload e tokens previous)) = consequent_reload e tokens previous.
+  Proof. reflexivity. Qed.
+  Theorem reload_ok (e : engine T) tokens previous cs :
+    load e tokens = Ok cs -> consequent_reload e tokens previous = (cs, None).
+  Proof. unfold consequent_reload. now intros ->. Qed.
+  Theorem reload_failed (e : engine T) tokens previous x :
+    load e tokens = Err x -> consequent_reload e tokens previous = ([], Some x).
+  Proof. unfold consequent_reload. now intros ->. Qed.
 End Spec.
 
 (* ======================================================================= the witness of finding F1 *)
